@@ -15,11 +15,12 @@ import (
 	"github.com/openGemini/openGemini/app/ts-meta/meta"
 	"github.com/openGemini/openGemini/lib/config"
 	meta2 "github.com/openGemini/openGemini/lib/util/lifted/influx/meta"
-	proto2 "github.com/openGemini/openGemini/lib/util/lifted/influx/meta/proto"
-	"github.com/openGemini/openGemini/lib/util/lifted/protobuf/proto"
 	"go.uber.org/zap"
 	"verifharness/internal/gen"
+	"verifharness/internal/metacmd"
 )
+
+type Cmd = metacmd.Cmd
 
 const (
 	MinNano = int64(-1<<63) + 2 // models.MinNanoTime
@@ -27,29 +28,6 @@ const (
 	Hour    = int64(time.Hour)
 	Base    = int64(1700000000) * 1e9 // 2023-11-14T22:13:20Z
 )
-
-type Cmd struct {
-	K      string `json:"k"`
-	DB     int    `json:"db,omitempty"`
-	RP     int    `json:"rp,omitempty"`
-	M      int    `json:"m,omitempty"`
-	HasRP  bool   `json:"hasrp,omitempty"`
-	D      *int64 `json:"d,omitempty"`
-	SGD    *int64 `json:"sgd,omitempty"`
-	Def    bool   `json:"def,omitempty"`
-	TS     int64  `json:"ts,omitempty"`
-	Eng    int    `json:"eng,omitempty"`
-	ID     uint64 `json:"id,omitempty"`
-	Ver    int    `json:"ver,omitempty"`
-	H      int    `json:"h,omitempty"`
-	T      int    `json:"t,omitempty"`
-	Pt     int    `json:"pt,omitempty"`
-	Owner  uint64 `json:"owner,omitempty"`
-	Status int    `json:"status,omitempty"`
-	COwner uint64 `json:"cowner,omitempty"`
-	CStat  int    `json:"cstat,omitempty"`
-	X      string `json:"x,omitempty"` // variant tag of commands outside the modelled subset
-}
 
 type Case struct {
 	Name     string  `json:"name"`
@@ -61,146 +39,6 @@ type Case struct {
 	Dumps    []*Dump `json:"dumps"`
 	Oracle   []Fail  `json:"oracle"`
 	NonTriv  bool    `json:"nontrivial"`
-}
-
-func dbName(c int) string {
-	if c <= 0 {
-		return ""
-	}
-	return "db" + strconv.Itoa(c)
-}
-func rpName(c int) string {
-	switch {
-	case c <= 0:
-		return ""
-	case c == 4:
-		return "autogen"
-	}
-	return "rp" + strconv.Itoa(c)
-}
-func mstName(c int) string { return "m" + strconv.Itoa(c) }
-
-func mkCmd(t proto2.Command_Type, ext *proto.ExtensionDesc, v interface{}) *proto2.Command {
-	cmd := &proto2.Command{Type: &t}
-	if err := proto.SetExtension(cmd, ext, v); err != nil {
-		panic(err)
-	}
-	return cmd
-}
-
-func pS(s string) *string   { return &s }
-func pB(b bool) *bool       { return &b }
-func pI64(v int64) *int64   { return &v }
-func pU64(v uint64) *uint64 { return &v }
-func pU32(v uint32) *uint32 { return &v }
-func pI32(v int32) *int32   { return &v }
-
-func rpInfo(name string, d, sgd int64) *proto2.RetentionPolicyInfo {
-	return &proto2.RetentionPolicyInfo{Name: pS(name), Duration: pI64(d), ShardGroupDuration: pI64(sgd), ReplicaN: pU32(1),
-		HotDuration: pI64(0), WarmDuration: pI64(0), IndexGroupDuration: pI64(0)}
-}
-
-func deref(p *int64) int64 {
-	if p == nil {
-		return 0
-	}
-	return *p
-}
-
-func hostHTTP(c int) string { return "h" + strconv.Itoa(c) + ":8400" }
-func hostTCP(c int) string  { return "h" + strconv.Itoa(c) + ":8401" }
-
-func build(c *Cmd) *proto2.Command {
-	db, rp := dbName(c.DB), rpName(c.RP)
-	switch c.K {
-	case "cdb":
-		v := &proto2.CreateDatabaseCommand{Name: pS(db), ReplicaNum: pU32(1)}
-		if c.HasRP {
-			v.RetentionPolicy = rpInfo(rp, deref(c.D), deref(c.SGD))
-		}
-		return mkCmd(proto2.Command_CreateDatabaseCommand, proto2.E_CreateDatabaseCommand_Command, v)
-	case "markdb":
-		return mkCmd(proto2.Command_MarkDatabaseDeleteCommand, proto2.E_MarkDatabaseDeleteCommand_Command, &proto2.MarkDatabaseDeleteCommand{Name: pS(db)})
-	case "dropdb":
-		return mkCmd(proto2.Command_DropDatabaseCommand, proto2.E_DropDatabaseCommand_Command, &proto2.DropDatabaseCommand{Name: pS(db)})
-	case "crp":
-		return mkCmd(proto2.Command_CreateRetentionPolicyCommand, proto2.E_CreateRetentionPolicyCommand_Command,
-			&proto2.CreateRetentionPolicyCommand{Database: pS(db), RetentionPolicy: rpInfo(rp, deref(c.D), deref(c.SGD)), DefaultRP: pB(c.Def)})
-	case "urp":
-		v := &proto2.UpdateRetentionPolicyCommand{Database: pS(db), Name: pS(rp), Duration: c.D, ShardGroupDuration: c.SGD, MakeDefault: pB(c.Def)}
-		if c.X == "rename" {
-			v.NewName = pS(rpName(c.M))
-		}
-		return mkCmd(proto2.Command_UpdateRetentionPolicyCommand, proto2.E_UpdateRetentionPolicyCommand_Command, v)
-	case "markrp":
-		return mkCmd(proto2.Command_MarkRetentionPolicyDeleteCommand, proto2.E_MarkRetentionPolicyDeleteCommand_Command,
-			&proto2.MarkRetentionPolicyDeleteCommand{Database: pS(db), Name: pS(rp)})
-	case "droprp":
-		return mkCmd(proto2.Command_DropRetentionPolicyCommand, proto2.E_DropRetentionPolicyCommand_Command,
-			&proto2.DropRetentionPolicyCommand{Database: pS(db), Name: pS(rp)})
-	case "setdef":
-		return mkCmd(proto2.Command_SetDefaultRetentionPolicyCommand, proto2.E_SetDefaultRetentionPolicyCommand_Command,
-			&proto2.SetDefaultRetentionPolicyCommand{Database: pS(db), Name: pS(rp)})
-	case "cmst":
-		v := &proto2.CreateMeasurementCommand{DBName: pS(db), RpName: pS(rp), Name: pS(mstName(c.M)),
-			Ski: &proto2.ShardKeyInfo{ShardKey: []string{"tk1"}, Type: pS(meta2.HASH)}, EngineType: pU32(0), InitNumOfShards: pI32(0)}
-		switch c.X {
-		case "otherkey":
-			v.Ski.ShardKey = []string{"tk2"}
-		case "badschema": // the same field twice with conflicting types
-			v.SchemaInfo = []*proto2.FieldSchema{{FieldName: pS("f1"), FieldType: pI32(1)}, {FieldName: pS("f1"), FieldType: pI32(3)}}
-		case "schema":
-			v.SchemaInfo = []*proto2.FieldSchema{{FieldName: pS("tk1"), FieldType: pI32(6)}, {FieldName: pS("f1"), FieldType: pI32(3)}}
-		}
-		return mkCmd(proto2.Command_CreateMeasurementCommand, proto2.E_CreateMeasurementCommand_Command, v)
-	case "markmst":
-		return mkCmd(proto2.Command_MarkMeasurementDeleteCommand, proto2.E_MarkMeasurementDeleteCommand_Command,
-			&proto2.MarkMeasurementDeleteCommand{Database: pS(db), Policy: pS(rp), Measurement: pS(mstName(c.M))})
-	case "dropmst":
-		return mkCmd(proto2.Command_DropMeasurementCommand, proto2.E_DropMeasurementCommand_Command,
-			&proto2.DropMeasurementCommand{Database: pS(db), Policy: pS(rp), Measurement: pS(fmt.Sprintf("%s_%04d", mstName(c.M), c.Ver))})
-	case "csg":
-		return mkCmd(proto2.Command_CreateShardGroupCommand, proto2.E_CreateShardGroupCommand_Command,
-			&proto2.CreateShardGroupCommand{Database: pS(db), Policy: pS(rp), Timestamp: pI64(c.TS), ShardTier: pU64(1), EngineType: pU32(uint32(c.Eng)), Version: pU32(0)})
-	case "delsg":
-		v := &proto2.DeleteShardGroupCommand{Database: pS(db), Policy: pS(rp), ShardGroupID: pU64(c.ID)}
-		if c.X == "cancel" {
-			v.DeleteType = pI32(meta2.CancelDelete)
-		}
-		return mkCmd(proto2.Command_DeleteShardGroupCommand, proto2.E_DeleteShardGroupCommand_Command, v)
-	case "prunesg":
-		return mkCmd(proto2.Command_PruneGroupsCommand, proto2.E_PruneGroupsCommand_Command, &proto2.PruneGroupsCommand{ShardGroup: pB(true), ID: pU64(c.ID)})
-	case "pruneig":
-		return mkCmd(proto2.Command_PruneGroupsCommand, proto2.E_PruneGroupsCommand_Command, &proto2.PruneGroupsCommand{ShardGroup: pB(false), ID: pU64(c.ID)})
-	case "delig":
-		return mkCmd(proto2.Command_DeleteIndexGroupCommand, proto2.E_DeleteIndexGroupCommand_Command,
-			&proto2.DeleteIndexGroupCommand{Database: pS(db), Policy: pS(rp), IndexGroupID: pU64(c.ID)})
-	case "cnode":
-		role := meta2.NodeWriter
-		if c.X == "reader" {
-			role = meta2.NodeReader
-		}
-		return mkCmd(proto2.Command_CreateDataNodeCommand, proto2.E_CreateDataNodeCommand_Command,
-			&proto2.CreateDataNodeCommand{HTTPAddr: pS(hostHTTP(c.H)), TCPAddr: pS(hostTCP(c.T)), Role: pS(role), Az: pS("")})
-	case "cptv":
-		return mkCmd(proto2.Command_CreateDbPtViewCommand, proto2.E_CreateDbPtViewCommand_Command, &proto2.CreateDbPtViewCommand{DbName: pS(db), ReplicaNum: pU32(1)})
-	case "uptinfo":
-		return mkCmd(proto2.Command_UpdatePtInfoCommand, proto2.E_UpdatePtInfoCommand_Command,
-			&proto2.UpdatePtInfoCommand{Db: pS(db), Pt: &proto2.PtInfo{Owner: &proto2.PtOwner{NodeID: pU64(c.COwner)}, Status: pU32(uint32(c.CStat)), PtId: pU32(uint32(c.Pt))},
-				OwnerNode: pU64(c.Owner), Status: pU32(uint32(c.Status))})
-	case "rmnode":
-		return mkCmd(proto2.Command_RemoveNodeCommand, proto2.E_RemoveNodeCommand_Command, &proto2.RemoveNodeCommand{NodeIds: []uint64{c.ID}})
-	case "expand":
-		return mkCmd(proto2.Command_ExpandGroupsCommand, proto2.E_ExpandGroupsCommand_Command, &proto2.ExpandGroupsCommand{})
-	case "altkey":
-		return mkCmd(proto2.Command_AlterShardKeyCmd, proto2.E_AlterShardKeyCmd_Command,
-			&proto2.AlterShardKeyCmd{DBName: pS(db), RpName: pS(rp), Name: pS(mstName(c.M)), Ski: &proto2.ShardKeyInfo{ShardKey: []string{"tk" + strconv.Itoa(c.Ver)}, Type: pS(meta2.HASH)}})
-	case "updschema":
-		return mkCmd(proto2.Command_UpdateSchemaCommand, proto2.E_UpdateSchemaCommand_Command,
-			&proto2.UpdateSchemaCommand{Database: pS(db), RpName: pS(rp), Measurement: pS(mstName(c.M)),
-				FieldToCreate: []*proto2.FieldSchema{{FieldName: pS("f" + strconv.Itoa(c.Ver)), FieldType: pI32(int32(c.Eng))}}})
-	}
-	panic("unknown command kind " + c.K)
 }
 
 type World struct {
@@ -222,7 +60,7 @@ func newWorld(name string, modelled bool, ptper int, sclean bool) *World {
 }
 
 func (w *World) exec(c Cmd) (res int) {
-	pc := build(&c)
+	pc := metacmd.Build(&c)
 	func() {
 		defer func() {
 			if r := recover(); r != nil {
@@ -534,7 +372,12 @@ func genCmd(r *gen.Rand, w *World, extra bool) Cmd {
 		}
 		return Cmd{K: "pruneig", ID: d.MaxIx + uint64(r.Range(1, 5))}
 	case k < 98:
-		return Cmd{K: "cptv", DB: anyDB()}
+		// a partition view for a database that is not in the catalogue makes a later node join panic (expandDBPtView
+		// dereferences data.Databases[db]); see NOTES - not generated
+		if len(dbs) > 0 {
+			return Cmd{K: "cptv", DB: gen.Pick(r, dbs)}
+		}
+		return Cmd{K: "cptv", DB: 0}
 	default:
 		if len(d.PtView) > 0 && len(d.PtView[0].Pts) > 0 {
 			v := gen.Pick(r, d.PtView)
@@ -637,7 +480,7 @@ func corpus() []*Case {
 			{K: "cnode", H: 2, T: 2},
 			{K: "cdb", DB: 1},
 			{K: "cdb", DB: 1, HasRP: true, RP: 1, D: i64(0), SGD: i64(Hour)}, // exists: no-op
-			{K: "crp", DB: 1, RP: 1, D: i64(Hour / 2), SGD: i64(0)},         // too low
+			{K: "crp", DB: 1, RP: 1, D: i64(Hour / 2), SGD: i64(0)},          // too low
 			{K: "crp", DB: 1, RP: 1, D: i64(48 * Hour), SGD: i64(0), Def: true},
 			{K: "crp", DB: 1, RP: 1, D: i64(48 * Hour), SGD: i64(0), Def: true}, // same: no-op
 			{K: "crp", DB: 1, RP: 1, D: i64(72 * Hour), SGD: i64(0)},            // conflict
